@@ -59,6 +59,14 @@ manifest = {
         {"name": "rv-chx", "path": "rv/engine.py", "serves_properties": [c["property_id"] for c in checks],
          "kind_free_text": "own exhaustive exploration loop over CrossHair 0.0.110's byte-code symbolic executor with z3; "
                            "concrete replay of every counterexample; parallel jobs (rv/run.py)"},
+        {"name": "rv-threads", "path": "rv/threads.py", "serves_properties": ["C17"],
+         "kind_free_text": "AST transformation of CircuitBreaker/Budget (from the current source) into line-preemptible generators; "
+                           "scheduler choices are solver variables; pre-emption-bounded exhaustive interleaving exploration "
+                           "with a linearizability oracle, on top of rv-chx"},
+        {"name": "rv-world", "path": "rv/world.py", "serves_properties": ["C01", "C02", "C03", "C04", "C05", "C08", "C09", "C11",
+                                                                            "C12", "C13", "C14", "C15", "C16"],
+         "kind_free_text": "symbolic world (configuration, outcome script, timings, callback answers, fault plans, placements) and "
+                           "trace recorder shared by the whole-run harnesses; coroutine trampoline for async entry points"},
     ],
     "checks": checks,
     "not_applicable": na,
